@@ -20,7 +20,8 @@ from . import env
 from . import findings as findings_mod
 
 MAX_SAMPLES = 6
-MAX_FAILS_KEPT = 400
+MAX_FAILS_KEPT = 3000
+MAX_PER_BUCKET = 12
 
 
 class Recorder:
@@ -34,6 +35,7 @@ class Recorder:
         self.classes = collections.Counter()
         self.counters = collections.Counter()
         self.failures = []
+        self._per_bucket = {}
         self.budget_exhausted = False
         self.exhaustive = None
 
@@ -64,7 +66,9 @@ class Recorder:
 
     def fail(self, case, expected, actual, relation, bucket=None, extra=None):
         self.counters['failures_seen'] += 1
-        if len(self.failures) < MAX_FAILS_KEPT:
+        b = bucket or relation
+        self._per_bucket[b] = self._per_bucket.get(b, 0) + 1
+        if self._per_bucket[b] <= MAX_PER_BUCKET and len(self.failures) < MAX_FAILS_KEPT:
             self.failures.append({'case': case, 'expected': expected, 'actual': actual, 'relation': relation,
                                   'bucket': bucket or relation, 'extra': extra})
 
